@@ -55,6 +55,12 @@ Theorem C17_ls_peak_field_inv : forall mini dom F, dft_spec dom F -> forall shap
 Proof. exact ls_peak_field_inv. Qed.
 Print Assumptions C17_ls_peak_field_inv.
 
+Theorem C17_ls_is_inverse_wave_number :
+  (forall x, x <> 0 -> ls_peak x * x = 2 * PI) /\
+  (forall S K, S <> 0 -> K <> 0 -> ls_mean S K * (K / S) = 2 * PI).
+Proof. exact ls_is_inverse_wave_number. Qed.
+Print Assumptions C17_ls_is_inverse_wave_number.
+
 Theorem C17_default_smoothing_scales_like_length : forall td s,
   ls_default_smoothing (s * td) = s * ls_default_smoothing td.
 Proof. exact default_smoothing_scales_like_length. Qed.
